@@ -30,6 +30,9 @@ chk("C05","faultx","fault_enumeration",
     "For every prior state (BFS to depth D over the alphabet), every mutating operation (collection API, GraphQL mutations incl. multi-document and upsert, merges of remote commits, index create/drop, schema add/patch, import) and every storage call the operation issues (named by kind/key/occurrence) the operation is re-run with that call failing (I/O error; additionally ErrTxnConflict at commit): error => store (minus unreachable blocks), logical dump and in-memory probe requests unchanged and no update event; success => store, dump and events identical to the fault-free run.",
     "trusted: the store's own commit atomicity (badger's contract, modelled by vkv); one fault per run; faults inside the ACP engine's store and the versioned fetcher's transient store are not injected; schema/index operations get a fresh DB object per run.", "exhaustive single-fault enumeration over every storage call of every operation on the real code", "§3 E2, §4 C05")
 
+chk("C06","txnx","exploration",
+    "Every interleaving of the steps (begin, operations, commit/discard) of 2-3 explicit transactions with scripts of <=2 operations over {read one, read all, update, counter increment, delete, create} on 2 shared documents, through both entry styles (txn.ExecRequest and the transaction carried in the context), executed in lock step with a snapshot-isolation reference model: every read inside a transaction = snapshot at its start + own writes; a non-transactional read after every step = exactly the committed state; two overlapping transactions that modified the same document never both commit and the loser gets the conflict error; discarded/failed transactions leave no trace.",
+    "trusted: isolation itself is the key-value store's: the deciding pass runs on badger in-memory (the store of the test-suite), a thinner second pass on vkv; spurious conflicts are counted, not alarmed on; phantom/predicate anomalies beyond the scripts are outside.", "exhaustive interleaving enumeration of transaction scripts on the real database against a reference model", "§3 E4, §4 C06")
 E6_NOTE = ("trusted: the reference evaluator (plain Go, written from docs/website/references/query-specification) where it speaks, "
            "metamorphic relations elsewhere; value alphabets a in {0,1,2,null}, b in {1,2,null}, s in {x,yx,null}; <=3 documents (4 thorough); "
            "requests limited to the generated grammar.")
@@ -57,6 +60,7 @@ def main():
      "engines": [
        {"name":"crdtx","path":"harness/crdtx","serves_properties":["C01","C02","C03","C04"],"kind_free_text":"explicit-state BFS over real replicas on a snapshotable store device"},
        {"name":"qx","path":"harness/qx","serves_properties":["C07","C08","C17"],"kind_free_text":"bounded-exhaustive document-set and request generator, reference evaluator, twin databases"},
+       {"name":"txnx","path":"harness/checks/c06.go","serves_properties":["C06"],"kind_free_text":"interleaving enumerator for explicit transactions with a snapshot-isolation model"},
        {"name":"faultx","path":"harness/faultx","serves_properties":["C05"],"kind_free_text":"single-fault enumeration of every storage call of every operation"},
        {"name":"vkv","path":"harness/vkv","serves_properties":[],"kind_free_text":"snapshotable transactional store device; bound to badger by `vcheck CONFORM` (exhaustive differential run) in setup"},
      ],
